@@ -136,12 +136,74 @@ class Env:
 
 def reset_lazy_globals():
     """bring lazily filled process globals back to their import-time value (so that every schedule starts 'cold')"""
+    if _SNAP is not None:
+        restore_lazy_globals()
+        return
     from mindsdb_sql.parser.ast.select import identifier
     identifier.RESERVED_KEYWORDS.clear()
     identifier.RESERVED_KEYWORDS.update({'PERSIST', 'IF', 'EXISTS', 'NULLS', 'FIRST', 'LAST', 'ORDER', 'BY', 'GROUP', 'PARTITION'})
 
 
 BIG = 3000
+
+_SNAP = None
+_MISSING = object()
+
+
+def snapshot_lazy_globals():
+    """import-time values of the simple module globals and class attributes of mindsdb_sql.* / sly.* (None, booleans, numbers, strings and
+    small containers): the places where "compute once" code keeps its state.  Taken before any library call."""
+    global _SNAP
+    snap = []
+    simple = (bool, int, float, str)
+
+    def consider(owner, attr, v):
+        if v is None or isinstance(v, simple):
+            snap.append((owner, attr, 'val', v, None))
+        elif isinstance(v, (set, dict, list)) and len(v) < 400:
+            snap.append((owner, attr, 'cont', v, copy.copy(v)))
+
+    for name in sorted(sys.modules):
+        if not (name == 'mindsdb_sql' or name.startswith('mindsdb_sql.') or name == 'sly' or name.startswith('sly.')):
+            continue
+        mod = sys.modules[name]
+        if mod is None:
+            continue
+        for k, v in list(vars(mod).items()):
+            if k.startswith('__'):
+                continue
+            if isinstance(v, type):
+                if getattr(v, '__module__', None) == name:
+                    for ck, cv in list(vars(v).items()):
+                        if not ck.startswith('__'):
+                            consider(v, ck, cv)
+            else:
+                consider(mod, k, v)
+    _SNAP = snap
+    return len(snap)
+
+
+def restore_lazy_globals():
+    """bring every snapshotted global back to its import-time value (so that every schedule / history starts cold)"""
+    changed = []
+    for owner, attr, kind, v, content in _SNAP or ():
+        cur = vars(owner).get(attr, _MISSING)
+        if kind == 'val':
+            if cur is not v and (cur is _MISSING or type(cur) is not type(v) or cur != v):
+                setattr(owner, attr, v)
+                changed.append(attr)
+        else:
+            if cur is not v:
+                setattr(owner, attr, v)
+                changed.append(attr)
+            if len(v) != len(content) or v != content:
+                if isinstance(v, list):
+                    v[:] = content
+                else:
+                    v.clear()
+                    v.update(content)
+                changed.append(attr)
+    return changed
 
 
 def global_state():
@@ -220,13 +282,19 @@ class CHECK(Check):
     assumptions = ['scheduling points are Python function boundaries of repository code (plus lines of four named functions at bound 1); interleavings inside '
                    'C extensions / SQLAlchemy and between two points are not explored',
                    'hash seeds are a finite sweep (the space is 2**32); thread schedules and call histories are exhaustive within the stated bounds',
-                   'every schedule starts with the lazily filled RESERVED_KEYWORDS set reset to its import-time value; module imports are warm']
+                   'every schedule starts with every simple module global / class attribute of mindsdb_sql.* and sly.* (None, numbers, strings, small containers) reset to its import-time value; module imports are warm']
 
     def setup(self, tier, seed):
         self.tier, self.seed = tier, seed
         # two-step histories over the rich planner corpus: references first, each in a process forked from this still clean one
         from vf import histories
         import mindsdb_sql.planner  # noqa: F401  (warm imports only - nothing is planned in this process before the references exist)
+        # import every dialect's lexer / parser / the planner / the renderer, then remember the import-time value of every simple global
+        from vf import gsx
+        for d in gsx.DIALECTS:
+            gsx.load_classes(d)
+        import mindsdb_sql.render.sqlalchemy_render  # noqa: F401
+        self.nsnap = snapshot_lazy_globals()
         self.hcorpus = histories.corpus(tier)
         self.href = histories.references(self.hcorpus)
         if tier == 'quick':
@@ -524,7 +592,7 @@ class CHECK(Check):
                 'two_step_histories_over_planner_corpus': c.get('pair_histories', 0), 'two_step_renderer_histories': c.get('render_pair_histories', 0), 'planner_corpus_size': len(self.hcorpus),
                 'globals_changed_by_calls': sorted(str(x) for x in agg['cover'].get('globals_changed_by_a_call', ()))[:40],
                 'hash_seed_sweep_is_exhaustive': False, 'free_running_pass_is_sampling': True,
-                'operations': list(OPS), 'pairs': [list(p) for p in PAIRS],
+                'lazy_globals_restored_before_every_schedule': getattr(self, 'nsnap', 0), 'operations': list(OPS), 'pairs': [list(p) for p in PAIRS],
                 'rule': 'schedules: every pair x all schedules with <= 1 preemption at call granularity, LINE granularity for 9 pairs, bound 2 at coarse granularity for 3 '
                         'pairs (thorough: bound 2 for all pairs, triples at bound 1); histories: all call sequences of depth 3 (thorough 4) over 21 operations with a shared '
                         'environment; seeds 0..3 (thorough 0..31 + 2 random); all ordered pairs of a planner corpus as process histories and on one reused QueryPlanner; states = distinct global-state digests + distinct thread outcome vectors'}
